@@ -328,8 +328,8 @@ VecOf ==
              exp |-> ret @@ [args_same |-> TRUE, value_same |-> TRUE, rpc_same |-> TRUE]]
       [] case.op \in LookupOps -> case @@ [exp |-> req]
       [] case.op = "exchange" ->
-            [op |-> "exchange", tag |-> case.tag, wire |-> case.wire, script |-> case.script,
-             hasLb |-> case.hasLb, respv |-> case.respv, cap |-> case.cap,
+            [op |-> "exchange", tag |-> case.tag, nexch |-> nexch, wire |-> case.wire, script |-> case.script,
+             hasLb |-> case.hasLb, respv |-> case.respv, cap |-> case.cap, stale |-> stale,
              exp |-> [req |-> req, calls |-> calls, buf |-> buf]]
 
 Emit == Terminal => PrintT("VEC " \o ToJson(VecOf))
